@@ -21,7 +21,10 @@ class Avail:
         """integer comparisons that are false are replaced by the true negated comparison, so
         that `if x < m` (taken) and `if x >= m {break}` (not taken) are the same fact"""
         if cond[0] == "bin" and cond[1] in self.NEG and val is False and self._int_cmp(p):
-            return (("bin", self.NEG[cond[1]], cond[2], cond[3]), True)
+            cond, val = ("bin", self.NEG[cond[1]], cond[2], cond[3]), True
+        # one spelling per comparison: `m > x` is `x < m`, `m >= x` is `x <= m`
+        if cond[0] == "bin" and cond[1] in ("Gt", "Ge"):
+            cond = ("bin", {"Gt": "Lt", "Ge": "Le"}[cond[1]], cond[3], cond[2])
         return (cond, val)
 
     def _int_cmp(self, p):
